@@ -3,6 +3,7 @@
 package proxy
 
 import (
+	"bufio"
 	"context"
 	"crypto/ecdsa"
 	"crypto/elliptic"
@@ -84,6 +85,9 @@ func newEnv(o envOpts) *penv {
 	}
 	if o.BudgetPercent == 0 {
 		o.BudgetPercent = 75
+	}
+	if o.BudgetPercent < 0 {
+		o.BudgetPercent = 0
 	}
 	e := &penv{opts: o}
 	cfg := config.NewDefault()
@@ -209,3 +213,5 @@ func (e *penv) uniq(prefix string) string {
 }
 
 func httpDate(t time.Time) string { return t.UTC().Format(http.TimeFormat) }
+
+func bufioReader(s string) *bufio.Reader { return bufio.NewReader(strings.NewReader(s)) }
